@@ -3,6 +3,7 @@ import ASV.Spec.Serial
 import ASV.Spec.ProtDna
 import ASV.Spec.SerialQual
 import ASV.Model.SerialModule
+import ASV.Model.SerialCds
 namespace ASV.Drv.C10
 open Lean ASV ASV.Drv ASV.Serial
 
@@ -282,6 +283,20 @@ def featOp (j : Json) : R Json := do
             ("complete", toJson g.m.complete), ("starter", toJson g.m.starter), ("final", toJson g.m.final), ("iterative", toJson g.m.iterative)]
     return jObj [("bio", eToJson (fun b => biosToJson [b]) b), ("back", eToJson modJson back),
                  ("again", eToJson (fun b => biosToJson [b]) again)]
+  | "cds" =>
+    -- CDSFeature.to_biopython, and from_biopython of the result (translation check taken as passed)
+    let fns ← listOf (fun e => do
+      let (f, t, d, p) ← annotOfJson e
+      match GeneFn.ofLabel f with
+      | some fn => pure (⟨fn, t, d, p⟩ : Annot)
+      | none => throw "C10: unknown gene function") (← fld j "gene_functions")
+    let c : Cds := ⟨← featOfJson (← fld j "feat"), ← optOf asStr j "locus_tag", ← optOf asStr j "protein_id", ← optOf asStr j "gene",
+                    ← strF j "product", ← strF j "translation", ← intF j "transl_table", ← listOf smOfJson (← fld j "sec_met"), fns⟩
+    let b := c.toBio
+    let back : E Cds := do Cds.fromBio 1 (fun _ _ => true) (← b)
+    return jObj [("bio", eToJson (fun b => biosToJson [b]) b),
+                 ("same", toJson (match back with | .ok c' => c' == { c with feat := c'.feat } | _ => false)),
+                 ("back_err", match back with | .error e => Json.str e | _ => Json.null)]
   | "extmotif" =>
     -- ExternalCDSMotif.to_biopython: what the parent classes wrote, and the qualifiers the motif arrived with
     return jObj [("quals", qualsToJson (extWrite (← qualsOfJson (← fld j "written")) (← qualsOfJson (← fld j "original"))))]
